@@ -68,7 +68,7 @@ def gen_case(rng, i):
                 "gamma": rng.choice([0.5, 0.9]), "calls": [{"total": 40, "reset": True}, {"total": rng.randint(1, 2) * ns_ * n_envs, "reset": False}], "seed": rng.randint(0, 10**6),
                 "scripts": [se.gen_script(rng, max_len=5, tag_base=1000 * e, p_both=0.2, p_trunc=0.45) for e in range(n_envs)]}
     split_fe = rng.random() < 0.4                   # separate actor / critic feature extractors (with parameters)
-    return {"id": i, "lam": rng.choice([0.5, 0.9, 0.95, 1.0]), "sde_freq": rng.choice([-1, 1, 2, 3]), "vecnorm": vecnorm, "vn_obs": rng.random() < 0.6, "split_fe": split_fe, "algo": rng.choice(["PPO", "A2C"]), "n_envs": n_envs, "n_steps": rng.randint(1, 6),
+    return {"id": i, "vn_frozen": vecnorm and rng.random() < 0.5, "lam": rng.choice([0.5, 0.9, 0.95, 1.0]), "sde_freq": rng.choice([-1, 1, 2, 3]), "vecnorm": vecnorm, "vn_obs": rng.random() < 0.6, "split_fe": split_fe, "algo": rng.choice(["PPO", "A2C"]), "n_envs": n_envs, "n_steps": rng.randint(1, 6),
             "act": ACT_KINDS[i % len(ACT_KINDS)], "obs": obs_kind, "gamma": rng.choice([0.5, 0.9, 0.99]),
             "calls": calls, "seed": rng.randint(0, 10**6),
             "scripts": [se.gen_script(rng, max_len=5, tag_base=1000 * e, tag_cap=250 if obs_kind in ("image", "dictimg") else se.MAXTAG - 1, p_both=0.2, p_trunc=0.45) for e in range(n_envs)]}
@@ -188,7 +188,19 @@ def run_impl(case):
         from stable_baselines3.common.vec_env import VecNormalize
 
         vkw = dict(norm_obs_keys=["a"]) if case["obs"] == "dictc" and vn_obs else {}     # Dict observations: only the listed keys are normalised
-        venv = RecWrap(VecNormalize(base, norm_obs=vn_obs, norm_reward=True, clip_obs=1e9, gamma=case["gamma"], **vkw))
+        vnorm = VecNormalize(base, norm_obs=vn_obs, norm_reward=True, clip_obs=1e9, gamma=case["gamma"], **vkw)
+        if case.get("vn_frozen"):
+            # evaluation-style use: statistics loaded from elsewhere and frozen (training=False); non-trivial values so that raw and
+            # normalised observations differ
+            rms = {} if not vn_obs else (vnorm.obs_rms if isinstance(vnorm.obs_rms, dict) else {None: vnorm.obs_rms})
+            for r_ in rms.values():
+                r_.mean = np.full_like(r_.mean, 700.0)
+                r_.var = np.full_like(r_.var, 9.0e4)
+                r_.count = 1000.0
+            vnorm.ret_rms.var = np.asarray(4.0)
+            vnorm.ret_rms.count = 1000.0
+            vnorm.training = False
+        venv = RecWrap(vnorm)
     else:
         venv = base
 
@@ -816,6 +828,18 @@ def nontrivial(case, impl):
     return (False, True) in flags and (True, False) in flags and len(impl.get("snaps", [])) >= 2
 
 
+def oracle_first(cases, impls, results):
+    """reporting order: cases whose statement-level oracle fails (concrete input) before cases where only model and implementation
+    disagree, so that the cap on reported violations never hides a concrete input behind a model-correspondence line"""
+    def rank(i):
+        pr = results[i] or []
+        if any(not sg.startswith("model-correspondence-") and sg != "impl-exception" for sg, _ in pr):
+            return 0
+        return 1 if pr else 2
+    order = sorted(range(len(cases)), key=rank)
+    return [(cases[i], impls[i], results[i]) for i in order]
+
+
 def main():
     chk = Check("C06", groups=["onpolicy"])
     chk.build_props()
@@ -830,7 +854,7 @@ def main():
     impls, results = run_cases(chk, cases)
     distinct = set()
     hist = {"split_extractors": 0, "vecnorm": 0, "vecnorm_obs": 0, "algo": {}, "act": {}, "obs": {}, "n_envs": {}, "n_steps": {}, "calls": {}, "bootstraps": 0, "both_flags_steps": 0, "rollouts": 0}
-    for c, im, probs in zip(cases, impls, results):
+    for c, im, probs in oracle_first(cases, impls, results):
         for k in ("algo", "act", "obs", "n_envs", "n_steps"):
             hist[k][c[k]] = hist[k].get(c[k], 0) + 1
         hist["calls"][len(c["calls"])] = hist["calls"].get(len(c["calls"]), 0) + 1
